@@ -2,7 +2,10 @@
 # run every registered check (tier = $1, default quick) against /repo; print one line per property
 tier=${1:-quick}
 cd "$(dirname "$0")"
+# optional: ONLY="C02 C07" restricts the run, SKIP="C01" leaves checks out
 for p in $(/venv/bin/python -c "import json;print(' '.join(c['property_id'] for c in json.load(open('MANIFEST.json'))['checks']))"); do
+  if [ -n "$ONLY" ] && ! echo " $ONLY " | grep -q " $p "; then continue; fi
+  if [ -n "$SKIP" ] && echo " $SKIP " | grep -q " $p "; then continue; fi
   out=$(/venv/bin/python -W ignore -m mc.run $p --tier $tier 2>&1); rc=$?
   echo "$p rc=$rc $(echo "$out" | tail -1)"
   echo "$out" | grep -E "^VIOLATION|^KNOWN-FINDING|HARNESS" | cut -c1-160 | head -5
